@@ -382,11 +382,17 @@ func (c *pCloud) LoadNetworkInterface(mac string) ([]netip.Addr, []netip.Addr, e
 				v4 = append(v4, pAddr(id))
 			}
 		}
+		// what this read no longer shows counts as "seen by the sync" once the sync has applied it (the end of its
+		// lock region), not when the metadata was read: an address handed out in between was not yet seen as removed
+		var missed []string
 		for k := range c.w.goneWhy {
 			if strings.HasPrefix(k, e.id+":") {
-				c.w.goneSeen[k] = true
+				missed = append(missed, k)
 			}
 		}
+		c.w.evMu.Lock()
+		c.w.loadSaw[whoAmI().gid] = missed
+		c.w.evMu.Unlock()
 		c.w.record(pEvent{kind: "ret", call: "load", g: whoAmI(), result: idsStr(ids)})
 		return v4, v6, nil
 	}
@@ -464,7 +470,12 @@ type pWorld struct {
 	heldBy    map[string]string           // "eni:ip" -> pod
 	everUsed  map[int]bool
 	goneWhy   map[string]string // "eni:ip" -> remote | unassigned
-	goneSeen  map[string]bool   // a sync has read the cloud since
+	goneSeen  map[string]bool   // a sync has applied a cloud listing without it since
+	loadSaw   map[int64][]string // sync goroutine -> addresses its metadata read missed (applied at its next lock region)
+	seenSeq   map[string]int     // "eni:ip" -> event number of the sync region that applied the removal
+	bindSeq   map[string]int     // "eni:ip" -> event number of the lock region that last gave it a new owner
+	lastOwner map[string]string
+	lastStatus map[int]string
 	loadFails bool
 	stop      chan struct{}
 	lines     []string
@@ -483,6 +494,58 @@ func (w *pWorld) record(e pEvent) {
 	if e.kind == "region" {
 		if _, ok := w.gidSlot[e.g.gid]; !ok {
 			w.gidSlot[e.g.gid] = e.slot
+		}
+		seq := len(w.events)
+		// who owns which address after this region (from the Local's own state)
+		var eniID string
+		for _, f := range strings.Fields(e.snap) {
+			if strings.HasPrefix(f, "e=") {
+				eniID = strings.TrimPrefix(f, "e=")
+			}
+			if strings.HasPrefix(f, "ips=") && f != "ips=-" {
+				for _, t := range strings.Split(strings.TrimPrefix(f, "ips="), ",") {
+					p := strings.Split(t, ":")
+					if len(p) < 2 {
+						continue
+					}
+					k := eniID + ":" + p[0]
+					if p[1] != "-" && w.lastOwner[k] != p[1] {
+						w.bindSeq[k] = seq
+					}
+					w.lastOwner[k] = p[1]
+				}
+			}
+		}
+		// an interface must not go to Deleting while a live request waits on it (queued or already ordered)
+		var st string
+		live := false
+		for _, f := range strings.Fields(e.snap) {
+			if strings.HasPrefix(f, "st=") {
+				st = strings.TrimPrefix(f, "st=")
+			}
+			for _, q := range []string{"a4=", "a6=", "d4=", "d6="} {
+				if strings.HasPrefix(f, q) && f != q+"-" {
+					for _, t := range strings.Split(strings.TrimPrefix(f, q), "+") {
+						if !strings.HasSuffix(t, "x") {
+							live = true
+						}
+					}
+				}
+			}
+		}
+		if st == "deleting" && w.lastStatus[e.slot] != "deleting" && live && e.g.label == "Dispose" {
+			w.viol = append(w.viol, [2]string{"C06/dispose/while-request-waits",
+				fmt.Sprintf("interface %s went to Deleting while a request is still waiting on it: %s", eniID, e.snap)})
+		}
+		w.lastStatus[e.slot] = st
+		if missed, ok := w.loadSaw[e.g.gid]; ok {
+			for _, k := range missed {
+				if _, done := w.seenSeq[k]; !done {
+					w.seenSeq[k] = seq
+				}
+				w.goneSeen[k] = true
+			}
+			delete(w.loadSaw, e.g.gid)
 		}
 	}
 	w.events = append(w.events, e)
